@@ -110,15 +110,16 @@ CHECKS = {
        "function and every list of timed inputs without a shutdown (producers of every kind, failing at any "
        "position, slow; wait(cancel=...)), after every prefix and after draining: C03_conservation(_final) (every "
        "submitted element is queued | among the next loaders | captured by the timed read | being loaded | in the "
-       "round's input set | delivered by a successful call, and nothing else is ever there), C03_only_submitted "
-       "(stated on the output stream the differential compares), C03_all_delivered_at_rest, from the 21-clause "
+       "round's input set | delivered by a successful call, and nothing else is ever there), C03_only_submitted and "
+       "C03_exactly_once (pairwise distinct arguments are never passed to two successful calls; both stated on the "
+       "output stream the differential compares), C03_all_delivered_at_rest, from the 21-clause "
        "machine invariant K (Buffer/Invariant.lean, InvStep.lean: preserved by every zero-time step, timed event "
        "and input); plus the step theorems C03_kept_on_failure, C03_delivered_on_success, addInputs_superset. Tied "
        "to BufferAsyncCalls by a virtual-time differential over random timed programs; monitor: every submitted "
        "element reaches exactly one successful call, nothing unsubmitted is delivered, the call after a failed one "
        "is a superset",
-  note=NOTE_COMMON + "Partial: 'exactly one' (no element delivered twice) and 'eventually at rest' (termination of "
-       "the retry loop) are decided by the differential and the monitor, not by a theorem. Foreign submitting threads: "
+  note=NOTE_COMMON + "Partial: 'eventually at rest' (termination of the retry loop) is decided by the differential and "
+       "the monitor, not by a theorem. Foreign submitting threads: "
        "the machine takes their two halves as inputs (fclear / fput) and the theorems cover programs containing them; on "
        "the real code 1..2 foreign threads are explored under the baton scheduler (schedule point at every access to "
        "the shared flag) and judged by the monitor only. Holds only after fix 30ffe8c (F10).",
